@@ -678,7 +678,8 @@ def _solve(job):
         base.from_string(smt)
         asserts = base.assertions()
         r, s, backend, reason = z3.unknown, None, 'z3', None
-        for rung, budget in (('z3', min(3000, timeout_ms)), ('z3-nlsat', timeout_ms), ('z3', timeout_ms)):
+        # short attempts first (a loaded machine must not push an easy query into a long wrong-strategy attempt), then the full budgets
+        for rung, budget in (('z3', min(5000, timeout_ms)), ('z3-nlsat', timeout_ms), ('z3', timeout_ms)):
             if rung == 'z3':
                 s = z3.Solver(ctx=ctx)
                 s.set('timeout', budget)
